@@ -275,6 +275,13 @@ class Chemicals:
         return f"{type(self).__name__}([{', '.join(self.__dict__)}])"
 
 
+def _rebuild_compiled_chemicals(chemicals, groups):
+    """Rebuild compiled chemicals from a pickle; chemical groups are defined again."""
+    new = CompiledChemicals(chemicals)
+    for name, (IDs, composition) in groups.items():
+        if name not in new._group_mol_compositions: new.define_group(name, IDs, composition)
+    return new
+
 @utils.read_only(methods=('append', 'extend', '__setitem__'))
 class CompiledChemicals(Chemicals):
     """
@@ -374,7 +381,9 @@ class CompiledChemicals(Chemicals):
                 'set_alias') + self.IDs
     
     def __reduce__(self):
-        return CompiledChemicals, (self.tuple,)
+        groups = {name: ([i.ID for i in self.__dict__[name]], composition)
+                  for name, composition in self._group_mol_compositions.items()}
+        return _rebuild_compiled_chemicals, (self.tuple, groups)
     
     def compile(self, skip_checks=False):
         """Do nothing, CompiledChemicals objects are already compiled.""" 
